@@ -332,11 +332,13 @@ def _linked_name_cases():
                      {'at': [0, 0, 1, 1], 'f': ['bin', '+', ['ref', [1, 0, 4, 2]], ['num', 1.0]]},
                      {'at': [0, 0, 2, 1], 'f': ['bin', '*', ['ref', [1, 0, 3, 2]], ['num', 2.0]]},
                      {'at': [0, 0, 3, 1], 'f': ['fn', 'IFERROR', ['ref', [0, 0, 1, 1]], ['num', -1.0]]}]
-            spec = {'books': [{'name': 'b0.xlsx', 'sheets': ['S1']}, {'name': 'Ext.xlsx', 'sheets': ['Data']}], 'cells': cells,
-                    'names': [{'name': 'TOTAL_IN', 'rect': name_rect}]}
-            fault = {'kind': kind, 'variant': variant, 'replace': True, 'target': 2, 'loc': [1, 0, 1]}
-            for fo in (True, False):
-                out.append({'k': 'spec', 'spec': spec, 'faults': [fault], 'path': 'file', 'first_only': fo})
+            # the linked file's name in three spellings (node ids are upper case whatever the file is called on disk)
+            for ext in (('Ext.xlsx', 'EXT.XLSX', 'ext.xlsx') if kind.startswith('absent-sheet') else ('Ext.xlsx',)):
+                spec = {'books': [{'name': 'b0.xlsx', 'sheets': ['S1']}, {'name': ext, 'sheets': ['Data']}], 'cells': cells,
+                        'names': [{'name': 'TOTAL_IN', 'rect': name_rect}]}
+                fault = {'kind': kind, 'variant': variant, 'replace': True, 'target': 2, 'loc': [1, 0, 1]}
+                for fo in (True, False):
+                    out.append({'k': 'spec', 'spec': spec, 'faults': [fault], 'path': 'file', 'first_only': fo})
     return out
 
 
